@@ -229,3 +229,72 @@ pub fn fixed_modular_file(k: u8) -> (ModularCase, FileCase) {
     let file = wrap_file(&mut src, &case.bytes, &marks, &[case.layout.frame_end], case.header_len, false);
     (case, file)
 }
+
+// ---------------------------------------------------------------------------
+// A corpus entry of any kind (single-frame Modular, multi-frame Modular, VarDCT)
+
+pub struct AnyCase {
+    pub bytes: Vec<u8>,
+    pub classes: Vec<String>,
+    pub layouts: Vec<crate::frames::FrameLayout>,
+    pub header_len: usize,
+    pub kind: &'static str,
+    pub size: (u32, u32),
+    pub orientation: u32,
+    /// features whose output depends on a pixel neighbourhood or on several tasks
+    pub has_parallel_work: bool,
+    pub has_neighbourhood_feature: bool,
+    pub desc: String,
+}
+
+#[derive(Clone, Debug)]
+pub struct AnyOpts {
+    /// weights of [single-frame Modular, multi-frame Modular, VarDCT]
+    pub weights: [u32; 3],
+    pub modular: ModGenOpts,
+    pub multi: crate::gen::frames::MultiOpts,
+    pub vardct: crate::gen::vardct::VarDctGenOpts,
+}
+
+impl Default for AnyOpts {
+    fn default() -> Self {
+        AnyOpts { weights: [3, 2, 3], modular: ModGenOpts { max_dim: 300, multi_group: 40, ..Default::default() }, multi: Default::default(), vardct: Default::default() }
+    }
+}
+
+pub fn gen_any_case(src: &mut Src, o: &AnyOpts) -> AnyCase {
+    match src.weighted(&o.weights) {
+        0 => {
+            let c = gen_modular_case(src, &o.modular);
+            let par = c.classes.iter().any(|x| x == "multi-group" || x == "multi-pass");
+            let nb = c.classes.iter().any(|x| x == "multi-group" || x.starts_with("tx:squeeze")) || c.ih.ec_info.iter().any(|e| e.dim_shift > 0);
+            let desc = format!("modular {}x{} depth {:?} ec {:?} classes {:?}", c.ih.width, c.ih.height, c.ih.bit_depth, c.ih.ec_info.iter().map(|e| e.dim_shift).collect::<Vec<_>>(), c.classes);
+            let mut classes = c.classes.clone();
+            classes.push("image:modular-single".into());
+            AnyCase { bytes: c.bytes, classes, layouts: vec![c.layout], header_len: c.header_len, kind: "modular", size: (c.ih.width, c.ih.height), orientation: c.ih.orientation, has_parallel_work: par, has_neighbourhood_feature: nb, desc }
+        }
+        1 => {
+            let c = crate::gen::frames::gen_multi_case(src, &o.multi);
+            let nb = c.classes.iter().any(|x| x == "crop" || x == "patches");
+            let desc = format!("multi-frame {}x{} frames {} keyframes {} classes {:?}", c.ih.width, c.ih.height, c.headers.len(), c.keyframes.len(), c.classes);
+            let mut classes = c.classes.clone();
+            classes.push("image:multi-frame".into());
+            AnyCase { bytes: c.bytes, classes, layouts: c.layouts, header_len: c.header_len, kind: "multi", size: (c.ih.width, c.ih.height), orientation: 1, has_parallel_work: true, has_neighbourhood_feature: nb, desc }
+        }
+        _ => {
+            let c = crate::gen::vardct::gen_vardct_case(src, &o.vardct);
+            let desc = format!("vardct {}x{} classes {:?}", c.ih.width, c.ih.height, c.classes);
+            let mut classes = c.classes.clone();
+            classes.push("image:vardct".into());
+            AnyCase { bytes: c.bytes, classes, layouts: vec![c.layout], header_len: c.header_len, kind: "vardct", size: (c.ih.width, c.ih.height), orientation: c.ih.orientation, has_parallel_work: c.num_groups > 1 || c.fh.passes.num_passes > 1, has_neighbourhood_feature: true, desc }
+        }
+    }
+}
+
+pub fn gen_any_file(src: &mut Src, o: &AnyOpts) -> (AnyCase, FileCase) {
+    let case = gen_any_case(src, o);
+    let marks = codestream_marks(case.header_len, &case.layouts);
+    let ends: Vec<usize> = case.layouts.iter().map(|l| l.frame_end).collect();
+    let file = wrap_file(src, &case.bytes, &marks, &ends, case.header_len, true);
+    (case, file)
+}
